@@ -169,16 +169,14 @@ Fixpoint alookup {A} (k : Z) (l : list (Z * A)) : option A :=
 Definition lilim_map (cs : list lline) : list (Z * lline) := map (fun c => (l_id c, c)) cs.
 Definition lilim_relations (cs : list lline) : list (Z * Z) :=
   map (fun c => (l_id c, l_rel c)) (filter (fun c => 0 <? l_dem c) cs).
-(* create_single_job: the local `dimens` (id "c<id>" and demand) is computed ... *)
-Definition lilim_local_dimens (c : lline) : option Z * option demand :=
-  (Some (l_id c), Some (if 0 <? l_dem c then (0, l_dem c, 0, 0) else (0, 0, 0, l_dem c))).
-(* ... but the Single is built with `dimens: Default::default()` *)
-Definition dimens_default : option Z * option demand := (None, None).
+(* create_single_job: dimens = id "c<id>" and the demand: positive file value = dynamic pickup,
+   otherwise dynamic delivery of the absolute value (i32::MIN.abs() overflow is outside the modelled domain) *)
+Definition lilim_dimens (c : lline) : option Z * option demand :=
+  (Some (l_id c), Some (if 0 <? l_dem c then (0, l_dem c, 0, 0) else (0, 0, 0, Z.abs (l_dem c)))).
 Definition lilim_single (ci : list coord) (c : lline) : list coord * single :=
-  let _unused := lilim_local_dimens c in
-  let used := dimens_default in
+  let dimens := lilim_dimens c in
   let '(ci', loc) := collect ci (l_x c, l_y c) in
-  (ci', mkSingle (fst used) (snd used) loc (l_service c) (l_start c) (Some (l_end c))).
+  (ci', mkSingle (fst dimens) (snd dimens) loc (l_service c) (l_start c) (Some (l_end c))).
 Fixpoint lilim_build (ci : list coord) (idx : Z) (rels : list (Z * Z)) (m : list (Z * lline)) : res (list job * list coord) :=
   match rels with
   | [] => Ok ([], ci)
@@ -441,12 +439,6 @@ Definition expected_lilim (I : lil_inst) : problem :=
          (number_from 0 (li_reqs I)))
     (mkFleet (li_number I) (li_capacity I) (loc_of final (nxy d)) (n_start d) (Some (n_end d)))
     final.
-(* what remains of a problem when sub-jobs of multi-jobs lose their dimensions (id, demand) *)
-Definition erase_single (s : single) : single := mkSingle None None (s_loc s) (s_dur s) (s_tws s) (s_twe s).
-Definition erase_job (j : job) : job :=
-  match j with JSingle s => JSingle s | JMulti k subs => JMulti k (map erase_single subs) end.
-Definition erase_dimens (p : problem) : problem := mkProblem (map erase_job (p_jobs p)) (p_fleet p) (p_coords p).
-
 (* ---- TSPLIB CVRP / EUC_2D ---- *)
 Record tnode := mkTnode { t_id : Z; t_x : Z; t_y : Z; t_dem : Z }.
 Record tsp_inst := mkTsp { ti_nodes : list tnode; ti_depot : Z; ti_capacity : Z }.
